@@ -9,6 +9,24 @@ PY = '/venv/bin/python'
 
 CLAIMED = {
 	# id: (category, technique, text, note, design_ref)
+	'C01': ('other', 'operator-precedence order compatibility over grammar ladder x Jinja output shapes x frozen C++ table; template/helper/i18n existence joins; anchoring lint',
+		'Decides six structural necessary conditions of C01 exhaustively over finite tables: every (parent, un-parenthesised child) operator pair the grammar allows is checked against the C++ operators Py2Cpp emits (handler code + Jinja ASTs), every render call site resolves to an existing parseable template, every helper/filter/i18n key a template uses exists, handler parameters equal node properties, scope containment is element-anchored, the dunder->operator table agrees with CPython dispatch. Does not decide run-time equivalence or C++20 acceptance.',
+		'trusts the frozen ISO C++ precedence table, lark/jinja2/PyYAML as data-file parsers; grammar ladder ~ CPython is C02', 'DESIGN.md §4 C01'),
+	'C03': ('other', 'stub-signature vs CPython result-type table, token->dunder table via probe object, literal-handler table, anchoring lint on index paths',
+		'Decides four narrow necessary conditions: stub operator/conversion signatures equal the types CPython computes on constants for every admitted operand type; the operator token->dunder table equals CPython dispatch; literal handlers name the right standard type; index-path containment tests are "."-anchored. Scope lookup / template substitution over run-time data is not decided.',
+		'CPython builtins are the oracle (evaluated on constants, no tranp code runs)', 'DESIGN.md §4 C03'),
+	'C05': ('other', 'guard-dominance walk over the closed cache region + who-may-touch + cache-identity coverage',
+		'Decides the clause "with caching disabled no cache file is read or written": every call-graph path from a public cache entry to a file-system effect passes the enabled side of a CacheSetting.enabled test; only the cache region touches the cache directory; every cache identity covers the settings/files its factory reads. warm==cold over edit histories is not decided.',
+		'effects are recognised by callee name inside the region; callee resolution is annotation/MRO based', 'DESIGN.md §4 C05'),
+	'C07': ('other', 'try-enclosure and exception-ladder checks, abstract-hole MRO resolution, stated-belief contradiction lint, explicit-raise inventory',
+		'Decides the shape clauses of "only Errors.Error escapes": third-party parser boundary on both branches, Procedure handler ladder and assert enclosure, no un-overridden NotImplementedError member on dispatchable classes, no index()==-1 belief, every explicit raise on the pipeline is an Errors.* class (frozen exceptions with reasons), interactive loop/top-level catches. Implicit exceptions and termination are not decided.',
+		'explicit raise sites and boundaries only; implicit KeyError/IndexError are out of static reach', 'DESIGN.md §4 C07'),
+	'C08': ('other', 'intraprocedural taint lint: separator anchoring of prefix/suffix/substring/length tests on identifier-carrying strings, frozen triage',
+		'Decides that no decision in the scanned pipeline files depends on a prefix/suffix/substring/length relation of user-chosen identifiers (the mechanism the property names). Every tainted sink is anchored on a separator, compares whole elements, or is listed with a reason. The metamorphic relation itself is not decided.',
+		'taint is intraprocedural with attribute/parameter sources; grammar-tag paths are not name-carrying', 'DESIGN.md §4 C08'),
+	'C09': ('other', 'abstract interpretation list/single over property bodies vs run-time-visible annotation; handler-signature join with Node.prop_keys recomputed statically; Procedure shape obligations; grammar-production emptiness',
+		'Decides the contract between the value-driven flattening and the annotation-driven popping for all 102 expandable properties and 183 handlers of the three Procedure clients, exhaustively; plus metadata-key unambiguity, one-result-per-node shape of Procedure, and that the raw-descendant fallback cannot fire for classes with properties.',
+		'purity of node properties is argued, not checked; prop_keys recomputed with the algorithm read from node.py', 'DESIGN.md §4 C09'),
 	'C12': ('translation_validation', 'translation validation of shipped grammar/rule-module pairs by an independent meta-grammar reader (ast + hand-written parser)',
 		'Every rule of data/syntax/gram.lark and py_gram.lark is compared node-by-node with the tuple tree checked in as gram_rules.py / py_rules.py; exhaustive over the 83 shipped rules. Decides the two fixed-point obligations of the property on the artifacts; says nothing about generated grammars.',
 		'trusts CPython ast.literal_eval and the 150-line reader vlib/metagram.py, which is itself validated by the gram.lark == gram_rules.py fixed point', 'DESIGN.md §4 C12'),
